@@ -16,7 +16,7 @@ RULE = ("Matcher trees are produced exactly as in C11 (queries over generated mu
         "every position reached: block_quality() >= score() of the current entry; for a plain term matcher block_quality() "
         ">= the score of every entry up to block_max_id(); max_quality() >= every remaining score. Then for a generated "
         "threshold q (0, negative, the score of a generated entry -/+ epsilon, above the maximum): skip_to_quality(q) on "
-        "a copy must not pass over any entry scoring more than q, and replace(q) must keep every remaining entry scoring "
+        "a fresh matcher at the same position must not pass over any entry scoring more than q, and replace(q) must keep every remaining entry scoring "
         "more than q with its score unchanged. Tolerance 1e-9 relative. Non-trivial = a position where the bound is "
         "within 5% of the score, or a call that actually skipped/dropped something; distinct by SHA-1 of (tree shape, "
         "threshold kind, list length).")
@@ -43,8 +43,25 @@ move_s = st.lists(st.one_of(st.tuples(st.just("next")), st.tuples(st.just("next"
 def strategy(tier):
     base = c11.strategy(tier)
 
-    def retarget(case):
-        return case
+    # a share of the directly built trees gets a binary root whose two sides share ids, so that the quality-driven
+    # skip of one side regularly lands on an id the other side has to veto / confirm
+    def rooted(case, kind, leaf, extra):
+        if case["kind"] == "query":
+            # the same for trees over real posting blocks: a binary root whose second side is a frequent term
+            word = WORDS_BY_FREQUENCY[len(extra) % len(WORDS_BY_FREQUENCY)]
+            other = {"op": "term", "f": "t", "x": word, "boost": 1.0}
+            if case["query"]["op"] in ("not", "span", "spannear", "spanor", "spannot", "spanfirst", "spancontains", "spanbefore",
+                                       "spancondition"):
+                return case
+            return dict(case, query={"op": kind if kind != "inter" else "and", "a": case["query"], "b": other,
+                                     "qs": [case["query"], other], "boost": 1.0})
+        if case["kind"] != "direct":
+            return case
+        ids = sorted(set(extra) | set(leaf["ids"]))
+        return dict(case, tree={"m": kind, "a": case["tree"], "b": dict(leaf, ids=ids)})
+    base = st.one_of(base, base,
+                     st.builds(rooted, base, st.sampled_from(["andnot", "inter", "require", "andmaybe"]), c11.list_leaf_s(),
+                               st.lists(st.integers(0, 30), max_size=8)))
     weighting = st.one_of(
         st.builds(lambda B, K1, tB: {"kind": "bm25f", "B": B, "K1": K1, "t_B": tB},
                   st.sampled_from([0.75, 0.0, 1.0, 0.3]), st.sampled_from([1.2, 0.5, 2.0]),
@@ -56,6 +73,7 @@ def strategy(tier):
                      base, move_s, st.lists(thr_s.map(list), min_size=1, max_size=3), weighting)
 
 
+WORDS_BY_FREQUENCY = ["a", "b", "ab", "ba", "abc"]
 TOL = 1e-9
 
 
@@ -173,18 +191,48 @@ def run_one(make, case, out, tag):
     # thresholds at the final position
     for thr in case["thresholds"]:
         q = threshold_value(thr, scores, pos)
-        # skip_to_quality on a copy
-        try:
-            c = m.copy()
-        except NotImplementedError:
-            c = None
+        # skip_to_quality on a fresh matcher moved to the same position (copy() is not available on posting-block
+        # matchers; that every route to a position gives the same cursor is C11's subject)
+        def fresh_at(p):
+            mm = make()
+            if p > 0 and mm.is_active():
+                mm.skip_to(ids[p])
+            if not mm.is_active() or mm.id() != ids[p]:
+                return None
+            return mm
+        c = fresh_at(pos)
+        if c is None:
+            out.exclude("cursor_diverged_see_C11")
+            return
         if c is not None and c.supports_block_quality():
             sk = c.skip_to_quality(q)
             if c.is_active():
                 cid = c.id()
                 if cid not in ids[pos:]:
-                    out.fail("c12.skip_to_quality_landed_off_list", {"tag": tag, "id": cid, "ids": ids[pos:][:20]})
-                    return
+                    # After a quality skip a compound matcher may sit on a document one of whose clauses has already
+                    # been moved on (its total cannot beat q): harmless as long as what it reports there does not
+                    # beat q either, because the collector will then not take it.  Reporting more than q for a
+                    # document that is not a match at all is a violation.
+                    try:
+                        phantom = c.score()
+                    except Exception:
+                        phantom = None
+                    if phantom is None or gt(phantom, q):
+                        out.fail("c12.skip_to_quality_landed_off_list", {"tag": tag, "id": cid, "ids": ids[pos:][:20],
+                                                                         "reported_score": phantom, "q": q})
+                        return
+                    out.label("landed_on_non_entry_scoring_at_most_q")
+                    newpos = len([i for i in ids if i < cid])
+                    if newpos < pos:
+                        out.fail("c12.skip_to_quality_moved_backwards", {"tag": tag, "id": cid, "from": ids[pos]})
+                        return
+                    lost = [(ids[j], scores[j]) for j in range(pos, newpos) if gt(scores[j], q)]
+                    if lost:
+                        out.fail("c12.skip_to_quality_passed_over_better_entry",
+                                 {"tag": tag, "q": q, "thr": thr, "passed": lost[:4], "from": pos, "to": newpos,
+                                  "matcher": repr(m)[:300]})
+                        return
+                    continue
                 newpos = ids.index(cid, pos)
             else:
                 newpos = len(ids)
@@ -200,11 +248,8 @@ def run_one(make, case, out, tag):
             # still beat the threshold are required to be bounded correctly)
             if c.is_active() and gt(scores[newpos], q) and not check_position(c, newpos, "after_skip_to_quality"):
                 return
-        # replace(q) on another copy
-        try:
-            c2 = m.copy()
-        except NotImplementedError:
-            c2 = None
+        # replace(q) on another fresh matcher at the same position
+        c2 = fresh_at(pos)
         if c2 is not None:
             r = c2.replace(q)
             rest = dict((e["id"], e.get("score")) for e in c11.walk_entries(r, False))
